@@ -24,7 +24,29 @@ func init() {
 	}
 }
 
-func WorkDir() string { return filepath.Join(VerifDir, ".work") }
+func WorkDir() string {
+	if d := os.Getenv("VERIF_WORK"); d != "" {
+		return d
+	}
+	return filepath.Join(VerifDir, ".work")
+}
+
+// OutDir is where evidence/ and replays/ are written (VERIF_OUT overrides it for
+// development runs against a scratch checkout).
+func OutDir() string {
+	if d := os.Getenv("VERIF_OUT"); d != "" {
+		return d
+	}
+	return VerifDir
+}
+
+// RepoDir is the checkout under test.
+func RepoDir() string {
+	if d := os.Getenv("VERIF_REPO"); d != "" {
+		return d
+	}
+	return "/repo"
+}
 
 var siteRe = regexp.MustCompile(`(?m)^(github\.com/wkhere/bcl[^\s(]*)\(`)
 
@@ -474,9 +496,9 @@ func (m *Merged) report(wall float64) int {
 		"wall_s":      wall,
 		"violations":  len(fresh),
 	}
-	os.MkdirAll(filepath.Join(VerifDir, "evidence"), 0o755)
+	os.MkdirAll(filepath.Join(OutDir(), "evidence"), 0o755)
 	b, _ := json.MarshalIndent(ev, "", " ")
-	os.WriteFile(filepath.Join(VerifDir, "evidence", id+".json"), append(b, '\n'), 0o644)
+	os.WriteFile(filepath.Join(OutDir(), "evidence", id+".json"), append(b, '\n'), 0o644)
 
 	fmt.Printf("%s %s: evaluations=%d distinct=%d nontrivial=%d outcomes=%d exhaustive=%v wall=%.1fs violations=%d (known %d) unstable=%d\n",
 		id, m.Tier, m.Evaluations, m.Distinct, m.Nontrivial, len(m.Outcomes), exhaustive, wall, len(fresh), len(knownSeen), len(m.Unstable))
@@ -484,14 +506,14 @@ func (m *Merged) report(wall float64) int {
 		fmt.Printf("  cap: %s\n", c)
 	}
 	if len(fresh) > 0 {
-		os.MkdirAll(filepath.Join(VerifDir, "replays"), 0o755)
+		os.MkdirAll(filepath.Join(OutDir(), "replays"), 0o755)
 		shown := 0
 		for _, v := range fresh {
 			if shown >= 10 {
 				break
 			}
 			shown++
-			p := filepath.Join(VerifDir, "replays", id+"-"+v.Sig()+".json")
+			p := filepath.Join(OutDir(), "replays", id+"-"+v.Sig()+".json")
 			vb, _ := json.MarshalIndent(v, "", " ")
 			os.WriteFile(p, append(vb, '\n'), 0o644)
 			fmt.Printf("VIOLATION property=%s replay=%s\n", id, p)
